@@ -29,6 +29,41 @@ import (
 
 const rule = "time-lines: interval 1 s or 2 s, 1-16 writers each looping a script of {write of 1 B..64 KiB, sleep, wait until just before/at the next boundary then burst}, running 2.2-4.5 s (quick) / up to 10 s (thorough), with generated stop/start cycles (writers quiesced) inside one second; non-trivial = >=2 files and a write within 5 ms of a boundary while >=2 writers were active, or a restart within one second; distinct by the drawn time-line"
 
+// The process runs in a local zone that is not UTC (chosen by the seed): file names carry the
+// local wall clock, and harness and library must agree on it.
+func init() {
+	seed, _ := strconv.Atoi(os.Getenv("VERIF_SEED"))
+	zones := []*time.Location{time.FixedZone("+0530", 19800), time.FixedZone("-0800", -28800), time.FixedZone("+0100", 3600)}
+	time.Local = zones[((seed%len(zones))+len(zones))%len(zones)]
+}
+
+// recLayout hands the appender the record an event carries in its first field, verbatim: the
+// Append path of the appender with the harness's self-describing records.
+type recLayout struct{}
+
+func (recLayout) ToBytes(e *log.Event) []byte { return e.Fields[0].Any.([]byte) }
+
+// appendRecord sends line through Append. The event's own timestamp is deliberately not the wall
+// clock (an application clock, a cached coarse clock, an event that waited in a queue): into which
+// file a write goes is decided by when it is written, not by what the event says.
+func appendRecord(app *log.RollingFileAppender, line string, n int) {
+	e := log.GetEvent()
+	switch n % 4 {
+	case 0:
+		e.Time = time.Now()
+	case 1:
+		e.Time = time.Now().Add(-90 * time.Minute) // stale stamp
+	case 2:
+		e.Time = time.Now().Add(75 * time.Minute) // stamp ahead of the clock
+	default:
+		e.Time = time.Date(2020, 1, 2, 3, 4, 5, 0, time.UTC) // constant stamp
+	}
+	e.Level, e.Tag = log.InfoLevel, "_c13"
+	e.Fields = []log.Field{{Key: "rec", Any: []byte(line)}}
+	app.Append(e)
+	log.PutEvent(e)
+}
+
 type wop struct {
 	K   string // w | s | b
 	N   int    // size / ms / offset-before-boundary ms
@@ -120,7 +155,7 @@ var nameRe = regexp.MustCompile(`^(.*)\.(\d{14})$`)
 func runTimeline(tl timeline, dir string) outcome {
 	interval := time.Duration(tl.IntervalS) * time.Second
 	newApp := func() *log.RollingFileAppender {
-		return &log.RollingFileAppender{AppenderBase: log.AppenderBase{Name: "r"}, Layout: &log.TextLayout{BaseLayout: log.BaseLayout{FileLineLength: 48}},
+		return &log.RollingFileAppender{AppenderBase: log.AppenderBase{Name: "r"}, Layout: recLayout{},
 			FileDir: dir, FileName: tl.Name, Rotation: log.TimeRotation{Interval: interval}, MaxAge: 1000}
 	}
 	app := newApp()
@@ -173,7 +208,11 @@ func runTimeline(tl timeline, dir string) outcome {
 							line := fmt.Sprintf("w%d:%d:%d:%08x|%s\n", w, seq, len(payload), crc32.ChecksumIEEE([]byte(payload)), payload)
 							gate.RLock()
 							t0 := time.Now()
-							app.Write([]byte(line))
+							if (w+seq)%3 == 2 {
+								appendRecord(app, line, seq) // through Append, with an event time of its own
+							} else {
+								app.Write([]byte(line))
+							}
 							t1 := time.Now()
 							gate.RUnlock()
 							mine = append(mine, rec{w, seq, payload[:min(len(payload), 1)], len(payload), t0, t1})
